@@ -520,6 +520,7 @@ func runC08(c *rt.Ctx) {
 		}
 	})
 	c.Require("decorated-valid-text", 900)
+	refillRun(c, c.Pick(40000, 400000), "size-text")
 	coldStart(c, "C08", 14)
 
 	nBytes := c.Pick(200000, 20000000)
